@@ -64,7 +64,10 @@ def _replay_chunk(args):
         if len(labs) >= 2:
             nontriv += 1
         i = base + j
-        fls = [C.BASE if i % 2 == 0 else C.flavour(rng)]
+        # base flavour on every second vector, half of those after a priming call on the same objects (multi-step)
+        fls = [(dict(C.BASE, twice=True) if i % 4 == 0 else C.BASE) if i % 2 == 0 else C.flavour(rng)]
+        if inp.get('fprec') and i % 2 == 1:
+            fls[0] = dict(fls[0], twice=True)      # the same per-fold precision objects are used by two calls
         if inp['method'] not in ('poisson', 'poisson_cv') and i % 3 == 0:
             xs = inp.get('x') or inp.get('x3')
             fls.append(C.flavour(rng, narrow=True, nonneg=bool(np.min(xs) >= 0 and np.min(inp.get('x2', [[0]])) >= 0)))
@@ -108,6 +111,14 @@ def replay(ctx, r, pid, *, nfloat=0, chunk=150, procs=16, want=None):
             if k in have and not set(vals) <= have[k]:
                 raise MachineryError(f'vacuous run: configured {k} {sorted(map(str, vals))} but replayed only {sorted(map(str, have[k]))}')
     return total
+
+
+def require_transformations(r, name):
+    """every terminal state has >= 1 outgoing transformation step (PermuteRows / RelabelFolds / PermuteChannels);
+    the staged pipeline alone generates exactly one transition per non-initial state"""
+    if r.generated < r.distinct + max(1, r.n_emitted // 2):
+        raise MachineryError(f'vacuous run {name}: {r.generated} transitions for {r.distinct} states - the '
+                             'transformation actions were not taken')
 
 
 def binding_selftest(ctx, r, pid):
@@ -240,32 +251,36 @@ def run(ctx):
                        'remove_mean semantics as documented: channel mean of each mean pattern removed; no effect '
                        'on correlation / poisson']
     thorough = ctx.tier == 'thorough'
-    W = 16 if thorough else 8
+    W = 16 if thorough else 2          # quick: TLC's wall time is start-up + the sequential Init; more workers only burn CPU
     q = not thorough
     ALL6 = ALL4 + ('crossnobis', 'poisson_cv')
     runs = []
     # (name, cfg kwargs, float-tier rate)
     runs.append(('single_grid', dict(mode='single', nobs=3, nch=2, nlab=3, vals='Vals01' if q else 'Vals012',
                                      methods=('euclidean', 'correlation'), rms=(False, True), usedescs=(True, False),
-                                     extids=(2,), emitmod=4 if q else 1), 0))
+                                     extids=(2,), emitmod=4 if q else 1,
+                                     invs=['Symmetric', 'ZeroIffEqualMeans', 'LabelOrderSorted', 'OneRowPerLabel', 'EntryBelongsToLabels',
+                                           'RowsAreObservations'] if q else None), 0))
     runs.append(('single_cat4', dict(mode='single', nobs=4, nch=2, nlab=3, datasrc='cat',
                                      dataids=(3,) if q else (1, 2, 3, 4),
                                      methods=ALL4, rms=(False, True), usedescs=(True, False), precids=(0, 1, 2),
                                      priorids=(1, 2), extids=(3,) if q else (1, 2, 3), emitmod=1), 40))
     runs.append(('single_perm', dict(mode='single', nobs=3, nch=2, nlab=3, datasrc='cat', dataids=(1,) if q else (1, 2),
                                      methods=ALL4, rms=(False, True), usedescs=(True, False), precids=(0, 2),
-                                     priorids=(1, 3), extids=(2,), permlevel=1, agree=True, emitmod=2 if q else 1), 0))
+                                     priorids=(3,) if q else (1, 3), extids=(2,), permlevel=1, agree=True, emitmod=2 if q else 1), 0))
     runs.append(('list_33', dict(mode='list', nobs=3, nobs2=3, nch=2, nlab=3, datasrc='cat', dataids=(2,) if q else (1, 2),
                                  methods=ALL4, rms=(False, True), usedescs=(True, False), precids=(0, 1),
                                  priorids=(1, 2) if thorough else (2,), emitmod=1 if thorough else 6), 60))
     runs.append(('list_32', dict(mode='list', nobs=3, nobs2=2, nch=2, nlab=3, datasrc='cat', dataids=(2, 3) if thorough else (3,),
                                  methods=('euclidean', 'mahalanobis', 'poisson'), rms=(False, True), usedescs=(True,),
-                                 precids=(0, 2), permlevel=0, agree=True, emitmod=2 if q else 1), 0))
+                                 precids=(0, 1, 2), unbals=(False, True), permlevel=0, agree=True, emitmod=2 if q else 1), 0))   # precisions 1 and 2: one per dataset
     runs.append(('movie_3', dict(mode='movie', nobs=3, nch=2, nlab=3, datasrc='cat', dataids=(1, 2), methods=ALL4,
                                  usedescs=(True, False), precids=(0, 1), priorids=(1, 2) if thorough else (2,), extids=(2,), nt=3,
-                                 binids=(0, 1, 4, 5) if thorough else (0, 4), emitmod=1 if thorough else 2), 50))
-    runs.append(('movie_1ch', dict(mode='movie', nobs=3, nch=1, nlab=2, datasrc='cat', dataids=(1,),
-                                   methods=('euclidean',), usedescs=(True,), nt=2, binids=(0, 1)), 0))
+                                 binids=(0, 1, 3, 4, 5) if thorough else (0, 3, 4),      # 3: interleaved bins {1,3},{2}; 4: bins out of temporal order
+                                 emitmod=1 if thorough else 2), 50))
+    if thorough:
+        runs.append(('movie_1ch', dict(mode='movie', nobs=3, nch=1, nlab=2, datasrc='cat', dataids=(1,),
+                                       methods=('euclidean',), usedescs=(True,), nt=2, binids=(0, 1)), 0))
     # ---- calc_rdm_movie(unbalanced=True), cross-validated movies, cross-validated / unbalanced lists --------------
     runs.append(('movie_unb', dict(mode='movie', nobs=3, nch=2, nlab=2, datasrc='cat', dataids=(1, 2), methods=ALL6,
                                    usedescs=(True, False), precids=(0, 2), priorids=(1, 2), extids=(2,), nt=2,
@@ -276,14 +291,14 @@ def run(ctx):
                                   priorids=(1, 2), extids=(2,), nt=2, binids=(0, 1, 2), nfold=2,
                                   foldsrcs=('explicit', 'default'), unbals=(False, True), agree=True), 30))
     runs.append(('list_cv_def', dict(mode='list', nobs=4, nobs2=4, nch=2, nlab=3, datasrc='cat', dataids=(1,),
-                                     methods=('crossnobis', 'poisson_cv', 'euclidean', 'correlation'), usedescs=(True,),
-                                     precids=(0, 1), priorids=(1,), nfold=2, foldsrcs=('default',), unbals=(False, True) if thorough else (False,),
-                                     agree=True, emitmod=8 if thorough else 1), 30))
+                                     methods=('crossnobis', 'poisson_cv'), usedescs=(True,),
+                                     precids=(0, 1), priorids=(1,), nfold=2, foldsrcs=('default',), unbals=(False, True),
+                                     agree=True), 30))
     runs.append(('list_cv_exp', dict(mode='list', nobs=4, nobs2=4, nch=2, nlab=2 if q else 3, datasrc='cat', dataids=(4,),
                                      methods=('crossnobis', 'poisson_cv'), usedescs=(True,), precids=(0,), priorids=(2,),
                                      nfold=2, foldsrcs=('explicit',), unbals=(False, True), emitmod=2 if q else 6), 60))
     runs.append(('new_perm', dict(mode='movie', nobs=4, nch=2, nlab=2, datasrc='cat', dataids=(1,),
-                                  methods=('crossnobis', 'correlation') if q else ('crossnobis', 'poisson_cv', 'correlation'),
+                                  methods=('crossnobis',) if q else ('crossnobis', 'poisson_cv', 'correlation'),
                                   usedescs=(True,), precids=(0,), priorids=(1,), extids=(2,), nt=2, binids=(0, 1), nfold=2,
                                   foldsrcs=('explicit',) if q else ('explicit', 'default'),
                                   unbals=(True, False), permlevel=1, agree=True, emitmod=4), 0))
@@ -307,11 +322,11 @@ def run(ctx):
                                          methods=ALL4, rms=(False, True), usedescs=(True,), precids=(0, 1, 2),
                                          priorids=(1, 3), extids=(3,), emitmod=2), 25))
         runs.append(('single_perm4', dict(mode='single', nobs=4, nch=3, nlab=2, datasrc='cat', dataids=(4,),
-                                          methods=ALL4, rms=(False, True), usedescs=(True, False), precids=(0, 2),
+                                          methods=ALL4, rms=(False, True), usedescs=(True,), precids=(0, 2),
                                           priorids=(2,), extids=(3,), permlevel=2, agree=True, emitmod=5), 0))
-        runs.append(('list_43', dict(mode='list', nobs=4, nobs2=3, nch=3, nlab=4, datasrc='cat', dataids=(1, 4),
+        runs.append(('list_43', dict(mode='list', nobs=4, nobs2=3, nch=3, nlab=3, datasrc='cat', dataids=(1, 4),
                                      methods=ALL4, rms=(False, True), usedescs=(True,), precids=(0, 2),
-                                     priorids=(3,), emitmod=25), 40))
+                                     priorids=(3,), emitmod=5), 40))
         runs.append(('movie_4', dict(mode='movie', nobs=4, nch=2, nlab=3, datasrc='cat', dataids=(3, 4), methods=ALL4,
                                      usedescs=(True, False), precids=(0, 3), priorids=(3,), extids=(1, 3), nt=3,
                                      binids=(0, 2, 3, 5), permlevel=0, emitmod=6), 50))
@@ -321,23 +336,10 @@ def run(ctx):
     ctx.exhaustive = False       # the enumeration is exhaustive, the replay of the large runs is a seeded sample
     total = 0
     first = True
-    # vacuity guard: every stage action and every transformation is taken (TLC -coverage on tiny configurations:
-    # the coverage output of long runs is too large to parse).  Thorough tier only - the quick tier relies on the
-    # guard in replay() that every configured method / option / fold source / estimator occurs among the vectors.
-    covs = [('single', dict(nobs=2), ['Average', 'Kernel', 'Build', 'SortAlpha', 'Single', 'PermuteRows', 'PermuteChannels']),
-            ('list', dict(nobs=2, nobs2=2), ['ListBranch', 'PermuteRows']),
-            ('movie', dict(nobs=2, nt=2, binids=(0, 1)), ['Movie', 'PermuteRows'])] if thorough else []
-    for mode, extra, acts in covs:
-        r = ctx.tlc('MC_CalcRdm', C.cfg(mode=mode, nch=2, nlab=2, datasrc='cat', dataids=(1,), methods=('euclidean', 'poisson'),
-                                        usedescs=(True, False), permlevel=1, emit=False, **extra),
-                    name=f'cov_{mode}', workers=1, coverage=True, timeout=900)
-        ctx.require_coverage(r, acts)
-    if thorough:
-        r = ctx.tlc('MC_CalcRdm', C.cfg(mode='movie', nobs=2, nch=2, nlab=1, datasrc='cat', dataids=(1,), nt=2,
-                                        methods=('euclidean', 'crossnobis'), usedescs=(True,), nfold=2, foldsrcs=('explicit',),
-                                        unbals=(False, True), permlevel=1, emit=False),
-                    name='cov_new', workers=1, coverage=True, timeout=900)
-        ctx.require_coverage(r, ['PartialCv', 'PartialUnbalanced', 'Movie', 'PermuteRows'])
+    # vacuity guards (no TLC -coverage: with the INSTANCEd Unbalanced module the cost model makes even tiny runs
+    # crawl): (1) replay() requires every configured method / option / fold source / estimator among the vectors -
+    # a terminal state exists only if every stage action on its path was taken; (2) runs with the transformation
+    # actions must have generated clearly more transitions than states (require_transformations)
     for name, kw, nfloat in runs:
         r = ctx.tlc('MC_CalcRdm', C.cfg(**kw), name=name, workers=W, timeout=1700)
         if not r.n_emitted:
@@ -347,6 +349,8 @@ def run(ctx):
             first = False
         v = next(r.iter_emitted())
         ctx.sample({'run': name, 'in': v['in'], 'expected': v['out']}, cap=8)
+        if kw.get('permlevel'):
+            require_transformations(r, name)
         total += replay(ctx, r, PID, nfloat=nfloat if thorough else nfloat * 3, want=kw)
     ctx.extra['vectors_replayed'] = total
     n = record_and_validate(ctx, PID, ['single', 'list', 'movie', 'moviex', 'listx'], 3000 if thorough else 300)
